@@ -293,6 +293,7 @@ structure IdentifyData where
   featureNegotiation : Bool
   tlsv1 : Bool
   hbOff : Bool                     -- `heartbeat_interval: -1` (false: the field is absent / 0 = "leave as is")
+  hbOn : Bool := false             -- a positive, permitted `heartbeat_interval`: heartbeats are (re-)enabled (audit B24)
   cert : ClientCert                -- what the client does if the server starts a handshake
   deriving Repr
 
@@ -420,20 +421,24 @@ def deniedRes (k : AuthCheck) (b : Broker) (code : String) : Res :=
 
 /-! ## the command handlers -/
 
+/-- `clientV2.SetHeartbeatInterval` as far as SUB's guard `HeartbeatInterval <= 0` cares: `-1` disables, a
+permitted positive value (re-)enables, absent / 0 leaves the setting as it is. -/
+def hbAfter (c : Conn) (d : IdentifyData) : Bool := if d.hbOn then false else (c.hbOff || d.hbOff)
+
 /-- `protocolV2.IDENTIFY` (no TLS gate in front of it). -/
 def execIdentify (cfg : Config) (c : Conn) (b : Broker) (d : IdentifyData) : Res :=
   if c.state ≠ .init then fatalRes c b "E_INVALID"
   else if d.bodyOk = false then fatalRes c b "E_BAD_BODY"
-  else if d.featureNegotiation = false then okRes { c with hbOff := c.hbOff || d.hbOff } b [.ok]
+  else if d.featureNegotiation = false then okRes { c with hbOff := hbAfter c d } b [.ok]
   else if (cfg.hasTls && d.tlsv1) = false then
-    okRes { c with hbOff := c.hbOff || d.hbOff } b [.identify false cfg.authEnabled]
+    okRes { c with hbOff := hbAfter c d } b [.identify false cfg.authEnabled]
   else match handshake cfg.certPolicy d.cert with
   | none =>
-    { conn := { c with hbOff := c.hbOff || d.hbOff }, broker := b,
+    { conn := { c with hbOff := hbAfter c d }, broker := b,
       replies := [.identify true cfg.authEnabled, .err "E_IDENTIFY_FAILED" true],
       close := true, query := none }
   | some cn =>
-    okRes { c with hbOff := c.hbOff || d.hbOff, tls := true, cn := cn, rd := c.rd + 1 } b
+    okRes { c with hbOff := hbAfter c d, tls := true, cn := cn, rd := c.rd + 1 } b
       [.identify true cfg.authEnabled, .ok]
 
 /-- `protocolV2.AUTH`. -/
